@@ -120,6 +120,7 @@ class Opts:
         s.trace = kw.get('trace', False)
         s.workers = kw.get('workers', 16)
         s.abstraction = kw.get('abstraction', True)
+        s.per_case_setup = kw.get('per_case_setup', False)
         s.mode = kw.get('mode', 'fork')                # 'fork': copy-on-write process per alternative; 'replay': re-execution
 
 class ConcreteModel:
@@ -842,14 +843,12 @@ class Exec:
                 # First ask for a "well-behaved" abstract model (no overflow/underflow in products by constants),
                 # whose inputs are far more likely to satisfy the exact formula; then the unconstrained one.
                 t1 = time.time()
+                plain = sol.model()
                 cands = []
                 sol.push(); sol.add(*ab.nice())
                 if sol.check() == z3.sat: cands.append(sol.model())
                 sol.pop()
-                cands.append(sol.model() if not cands else None)
-                if cands[-1] is None:
-                    cands.pop()
-                    if sol.check() == z3.sat: cands.append(sol.model())
+                cands.append(plain)
                 allc = s.path + ([extra] if extra is not None else [])
                 for am in cands:
                     cm = ConcreteModel([(v, am.eval(v, model_completion=True)) for v in s.symvars.values()])
@@ -1905,6 +1904,21 @@ _dm = re.compile(r'(\d+)')
 def demangle(name):
     """rough legacy-mangling demangler: _ZN4core9panicking9panic_fmt17h...E -> core::panicking::panic_fmt"""
     n = name.lstrip('@').strip('"')
+    if n.startswith('_R'):
+        # v0 mangling: collect the length-prefixed identifiers (rough, for diagnostics only)
+        parts = []; i = 2
+        while i < len(n):
+            if n[i].isdigit():
+                j = i
+                while j < len(n) and n[j].isdigit(): j += 1
+                ln = int(n[i:j])
+                if j < len(n) and n[j] == '_': j += 1
+                if 0 < ln <= len(n) - j:
+                    parts.append(n[j:j + ln]); i = j + ln; continue
+                i = j
+            else:
+                i += 1
+        return '::'.join(p for p in parts if p) or n
     if not n.startswith('_ZN'): return n
     i = 3; parts = []
     while i < len(n) and n[i].isdigit():
@@ -2117,6 +2131,24 @@ def worker_main(spec_path):
     gc.collect(); gc.freeze(); gc.disable()
     if opts.mode == 'replay':
         run_replay(mod, opts, ctl, spec)
+        os._exit(0)
+    if opts.per_case_setup:
+        # the set-up before verif_checkpoint depends on the case (e.g. a session prelude generated per case):
+        # every case is a separate run of the entry with its configuration visible from the start
+        for case in spec['cases']:
+            pid = os.fork()
+            if pid == 0:
+                ex = Exec(mod, opts); ex.ctl = ctl
+                ex.case = case; ex.checkpointed = True
+                conc = case.get('concrete')
+                if conc is not None: ex.concrete = {(k[0], int(k[1:])): v for k, v in conc.items()}
+                ex.t_start = time.time(); ex.ninstr_base = 0
+                ex.budget_abs = opts.instr_budget
+                try:
+                    run_guarded(ex, spec['entry'], lambda st, info: ex.finish(st, info))
+                finally:
+                    os._exit(0)
+            os.waitpid(pid, 0)
         os._exit(0)
     ex = Exec(mod, opts); ex.ctl = ctl
     ex.t_start = time.time(); ex.ninstr_base = 0
